@@ -38,7 +38,9 @@ def token_samples(art, rnd, maxlen=5):
 def make_texts(art, rnd, count, maxrunes):
     toks, partial = token_samples(art, rnd)
     seps = [[], [32], [10], [9], [32, 32], [13, 10]]
-    junk = [[35], [64], [233], [0x20AC], [126], [48], [97], [34]]
+    # characters at the edges of every UTF-8 length class and of the second-byte ranges of the decoder
+    junk = [[35], [64], [233], [0x20AC], [126], [48], [97], [34],
+            [0x80], [0xBF], [0xFF], [0x7FF], [0x800], [0xFFF], [0xD7FF], [0xE000], [0xFFFD], [0xFFFF], [0x10000], [0x3FFFF], [0x10FFFF]]
     texts = []
     for _ in range(count):
         t = []
